@@ -398,7 +398,7 @@ pub fn check(c: &Case) -> CheckResult {
         let mut tasks = Vec::new();
         match entry {
             Entry::AcceptLoop => {
-                let listener = WebSocketServer::listen("127.0.0.1:0").await.map_err(|e| Fail::new("harness-listen", e.to_string()))?;
+                let listener = WebSocketServer::listen(crate::util::lo0().as_str()).await.map_err(|e| Fail::new("harness-listen", e.to_string()))?;
                 let addr = listener.local_addr().unwrap();
                 let srv = tokio::spawn(async move {
                     let _ = server.serve_listener(listener, "/repe").await;
@@ -491,7 +491,7 @@ pub fn check_connect_panic(c: &PanicCase) -> CheckResult {
     block_on(async move {
         match entry {
             Entry::AcceptLoop => {
-                let listener = WebSocketServer::listen("127.0.0.1:0").await.map_err(|e| Fail::new("harness-listen", e.to_string()))?;
+                let listener = WebSocketServer::listen(crate::util::lo0().as_str()).await.map_err(|e| Fail::new("harness-listen", e.to_string()))?;
                 let addr = listener.local_addr().unwrap();
                 let srv = tokio::spawn(async move {
                     let _ = server.serve_listener(listener, "/repe").await;
@@ -557,7 +557,7 @@ pub fn check_accept_loop(c: &LoopCase) -> CheckResult {
     let (env2, peers2) = (env.clone(), peers.clone());
     let c2 = c.clone();
     let ids: Vec<u64> = block_on(async move {
-        let listener = WebSocketServer::listen("127.0.0.1:0").await.map_err(|e| Fail::new("harness-listen", e.to_string()))?;
+        let listener = WebSocketServer::listen(crate::util::lo0().as_str()).await.map_err(|e| Fail::new("harness-listen", e.to_string()))?;
         let addr = listener.local_addr().unwrap();
         let shutdown = ShutdownToken::new();
         let sd = shutdown.clone();
